@@ -54,9 +54,25 @@ def register(K):
                logs=[("resolve", ["module", "name"])], ensures=[])
     K.contract("ml.FicklingMLUnpickler.__init__", params="self: ml.FicklingMLUnpickler, *args: val, also_allow: val = None, **kwargs: val",
                modifies=["self.allowlist", "self._file"],
+               may_raise=["ValueError", "TypeError", "AttributeError"], exact_raises=False,
                logs=[("ml-unpickler-created", ["self", "also_allow"])],
-               loops={0: dict(invariant=[], modifies=[])},
-               ensures=["fresh_since_entry(self.allowlist)"])
+               loops={0: dict(invariant=["vals_fresh(self.allowlist)", "allocated_by_call(self.allowlist)"],
+                              modifies=["@dict.keys:fresh", "@dict.map:fresh", "@dict.has:fresh"])},
+               ensures=["fresh_since_entry(self.allowlist)", "vals_fresh(self.allowlist)"])
+
+    @K.spec("allocated_by_call")
+    def allocated_by_call(eng, st, x):
+        """the object did not exist when the verified function was entered"""
+        from pyvc.state import ALLOC0
+        return vbool(eng.as_ref(x, st) >= ALLOC0)
+
+    @K.spec("vals_fresh")
+    def vals_fresh(eng, st, d):
+        """every per-module table of the allowlist d is an object allocated since the function was entered (not one of ML_ALLOWLIST's)"""
+        r = eng.as_ref(d, st)
+        return vbool(eng.fresh_values_pred()(st.read("dict.map", r)))
+
+    K.contract("ml.MLAllowlist.__init__", params="self: ml.MLAllowlist", modifies=["self.allowlist"], ensures=[])
 
     def closure_env(eng, st):
         c = st.env["__closure__"]
